@@ -131,6 +131,7 @@ class Dataset:
     truth_alleles: dict = field(default_factory=dict)   # sample -> locus name -> list of allele-index lists
     chromosomes: dict = field(default_factory=dict)     # sample -> contig -> list (len ploidy) of full sequences
     nodepth: list = field(default_factory=list)         # [(sample, locus name)] with zero reads by construction
+    fasta_contigs: dict = field(default_factory=dict)   # the sequences as written to the FASTA (lower case where soft-masked)
 
     def locus(self, name: str) -> Locus:
         for l in self.loci:
@@ -702,7 +703,7 @@ class _ReadMaker:
 
 def make_dataset(rng, outdir, n_samples=3, n_loci=3, ploidies=(2, 4), max_snvs=5, multiallelic=True,
                  depth=(5, 30), read_len=(30, 80), error_rate=0.01, features=frozenset(), n_contigs=1,
-                 contig_len=600) -> Dataset:
+                 contig_len=600, sample_names=None, softmask=0.0) -> Dataset:
     """Generate and write a complete input set for the MCHap programs (see the module docstring).
 
     * loci: `n_loci` non-overlapping windows (12..60 bp) spread over `n_contigs` contigs, 0..`max_snvs` SNVs each;
@@ -727,6 +728,9 @@ def make_dataset(rng, outdir, n_samples=3, n_loci=3, ploidies=(2, 4), max_snvs=5
       "nodepth"  one (sample, locus) pair, listed in `Dataset.nodepth`, has no record overlapping the window (records
                  of that sample aimed at neighbouring loci are trimmed so that they stay out of it);
       "lowqual"  ~12% of the bases have phred 2..12 (and err with the matching probability); otherwise phred 25..40.
+    * optional (defaults leave everything above unchanged, including the random stream): `sample_names` replaces the
+      names S1..Sn; `softmask` > 0 writes the FASTA with lower-case (soft-masked) stretches covering about that fraction of
+      every contig (`Dataset.fasta_contigs`); `Dataset.contigs`, the reads and the SNV file stay upper case.
     """
     features = frozenset(features)
     unknown = sorted(features - ALL_FEATURES)
@@ -747,6 +751,10 @@ def make_dataset(rng, outdir, n_samples=3, n_loci=3, ploidies=(2, 4), max_snvs=5
     ]
 
     samples = [f"S{i + 1}" for i in range(n_samples)]
+    if sample_names is not None:
+        samples = [str(x) for x in sample_names]
+        if len(samples) != n_samples or len(set(samples)) != n_samples:
+            raise ValueError("sample_names must be n_samples distinct names")
     pl = list(ploidies)
     order = [pl[i % len(pl)] for i in range(n_samples)]
     rng.shuffle(order)
@@ -876,7 +884,20 @@ def make_dataset(rng, outdir, n_samples=3, n_loci=3, ploidies=(2, 4), max_snvs=5
             ))
 
     # ---- write everything
-    fasta = write_fasta(os.path.join(outdir, "reference.fasta"), contigs)
+    fasta_contigs = dict(contigs)
+    if softmask > 0:
+        for c, seq in contigs.items():
+            t = list(seq)
+            covered = 0
+            for _ in range(50):
+                if covered >= softmask * len(seq):
+                    break
+                a = rng.randrange(len(seq))
+                b = min(len(seq), a + rng.randint(1, max(1, len(seq) // 4)))
+                t[a:b] = [x.lower() for x in t[a:b]]
+                covered += b - a
+            fasta_contigs[c] = "".join(t)
+    fasta = write_fasta(os.path.join(outdir, "reference.fasta"), fasta_contigs)
     for p in bam_order:
         reads[p] = sort_reads(contigs, reads[p])
         write_bam(p, contigs, reads[p], read_groups[p])
@@ -891,7 +912,7 @@ def make_dataset(rng, outdir, n_samples=3, n_loci=3, ploidies=(2, 4), max_snvs=5
         dir=outdir, fasta=fasta, contigs=contigs, samples=samples, ploidy=ploidy, bams=bam_order,
         sample_bam=sample_bam, read_groups=read_groups, reads=reads, snv_vcf=snv_vcf, bed=bed, loci=loci,
         truth=truth, ploidy_file=ploidy_file, features=features, truth_alleles=truth_alleles,
-        chromosomes=chromosomes, nodepth=nodepth,
+        chromosomes=chromosomes, nodepth=nodepth, fasta_contigs=fasta_contigs,
     )
 
 
